@@ -36,11 +36,11 @@ def cells(tier, seed):
 
 def pyramid_shapes(cell):
     """[(lowpass spatial shape), [detail spatial shape per level, finest first]]"""
-    L = refs.flen(cell['wave'])
+    Ls = c01.axis_flens(cell)
     cur = list(cell['shape'])
     det = []
     for _ in range(cell['J']):
-        cur = [pywt.dwt_coeff_len(n, L, cell['mode']) for n in cur]
+        cur = [pywt.dwt_coeff_len(n, La, cell['mode']) for n, La in zip(cur, Ls)]
         det.append(list(cur))
     return cur, det
 
@@ -51,7 +51,7 @@ def build(cell):
     with util.default_dtype(torch.float64):
         if cell['dim'] == 1:
             return pw.DWT1DInverse(wave=cell['wave'], mode=c01.lib_mode(cell))
-        return pw.DWTInverse(wave=cell['wave'], mode=c01.lib_mode(cell))
+        return pw.DWTInverse(wave=c01.wave_arg(cell, True), mode=c01.lib_mode(cell))
 
 
 def make_pyramid(cell, kind, seed, batch=None, full=False):
@@ -83,13 +83,12 @@ def reference(cell, yl, yh):
     hn = [None if h is None else util.np64(h) for h in yh]
     if cell['dim'] == 1:
         return refs.waverec1(util.np64(yl), hn, cell['wave'], cell['mode'])
-    return refs.waverec2(util.np64(yl), hn, cell['wave'], cell['wave'], cell['mode'])
+    return refs.waverec2(util.np64(yl), hn, cell['wave'], cell.get('wave_row') or cell['wave'], cell['mode'])
 
 
 def in_d7(cell):
-    L = refs.flen(cell['wave'])
-    return any(c01.in_d7(c01.level_lengths(n, L, cell['mode'], cell['J']), L, cell['mode'])
-               for n in cell['shape'])
+    return any(c01.in_d7(c01.level_lengths(n, La, cell['mode'], cell['J']), La, cell['mode'])
+               for n, La in zip(cell['shape'], c01.axis_flens(cell)))
 
 
 KF_NONE = 'none-level-periodization-lowpass-not-cropped'
@@ -116,7 +115,7 @@ def none_mismatch(cell, mask):
 
 
 def tol_for(cell, yl, yh):
-    G = refs.l1gain(cell['wave'], synthesis=True) ** (cell['J'] * cell['dim'])
+    G = c01.total_gain(cell, True)
     m = max([float(yl.abs().max())] + [float(h.abs().max()) for h in yh if h is not None and h.numel()])
     return 1e-11 * G * max(m, 1e-300) * 4
 
@@ -177,7 +176,7 @@ def run_cell(cell, seed):
         out.extend(judge(cell, kind, None, mod, yl, yh))
     # history: in-place reload of the filter buffers with other taps of the same length
     other = c01.same_length_other(cell['wave'])
-    if other is not None and rnd.random() < 0.34:
+    if other is not None and not cell.get('wave_row') and rnd.random() < 0.34:
         cell2 = dict(cell, wave=other, reloaded_from=cell['wave'])
         mod2 = build(cell)
         pyrs = {k: make_pyramid(cell, k, seed + 41) for k in ('impulse', 'randn')}
